@@ -84,6 +84,11 @@ def scenarios(tier, seed=0):
         out.append(mk("02/28", 7, D(2004, 2, 29), D(2005, 4, 30), off))
         out.append(mk("01/10", 18, D(2004, 1, 5), D(2004, 2, 29), off))
         out.append(mk("01/10", 40, D(2004, 1, 5), D(2004, 2, 29), off))
+        # the end date cuts the (last) season on / around 29 February
+        for end in (D(2004, 2, 28), D(2004, 2, 29), D(2004, 3, 1)):
+            out.append(mk("02/01", 40, D(2004, 1, 28), end, off))
+            out.append(mk("02/20", 18, D(2003, 2, 18), end, off))
+            out.append(mk("12/20", 40 if not q else 18, D(2003, 12, 20), end, off))
     # crop death as an environment choice: every death day of the season
     for L in ([7, 18] if q else [7, 18, 40]):
         for k in range(1, L + 1):
